@@ -1,6 +1,6 @@
 CONSTANTS
   NP = 4
-  Stakes = {1, 2, 3, 4}
+  Stakes = {1, 2, 4}
   GeoSets = {{1}, {4}, {1, 4}}
   PolGeoSets = {{1}, {1, 4}}
   McMixed = {}
